@@ -219,7 +219,7 @@ def run(ctx):
 
 
 SHAPES_DT = ["absent", "date", "datetime", "list", "text"]
-SHAPES_DUR = ["absent", "days", "secs", "daystime", "list", "text", "days-parsed"]
+SHAPES_DUR = ["absent", "days", "secs", "daystime", "zero", "list", "text", "days-parsed"]
 
 
 def stored(it, m, shape, sym):
@@ -238,6 +238,8 @@ def stored(it, m, shape, sym):
         return it.call(vdur, [mk_td(True, sym)], {})
     if shape == "daystime":
         return it.call(vdur, [mk_td("daystime", sym)], {})
+    if shape == "zero":          # DURATION:P0D / PT0S - present, of length zero
+        return it.call(vdur, [TD(term={sym: 1}, mag="zero")], {})
     if shape == "days-parsed":       # as produced by from_ical: vDDDTypes(timedelta)
         return it.call(vddd, [mk_td(False, sym)], {})
     if shape == "list":
@@ -251,7 +253,7 @@ def stored(it, m, shape, sym):
 def oracle(s, e, d):
     """Expected (start, end, duration) outcomes from the property statement."""
     bad_shape = any(x in ("list", "text") for x in (s, e, d))
-    dd = "days" if d == "days-parsed" else d
+    dd = "days" if d in ("days-parsed", "zero") else d
     invalid = bad_shape or (e != "absent" and dd != "absent") or \
         (s == "date" and dd in ("secs", "daystime")) or \
         (s != "absent" and e != "absent" and (s == "date") != (e == "date"))
